@@ -894,7 +894,7 @@ Proof.
     + destruct (setattr_target reserved (names_of st) (cmap st) attr); [apply rebuild_inv|exact HI].
   - apply rebuild_inv.
   - rewrite (Hdir eq_refl). apply refresh_inv. exact HI.
-  - exact HI.
+  - apply refresh_inv. exact HI.
   - apply refresh_inv. exact HI.
   - apply refresh_inv. exact HI.
   - apply refresh_inv. exact HI.
@@ -954,7 +954,7 @@ Proof.
     + destruct (setattr_target reserved (names_of st) (cmap st) attr); [apply rebuild_cnames|reflexivity].
   - destruct dir_stores; cbn [fst]; [apply refresh_cnames|].
     unfold cnames_of. simpl. apply set_nth_same_cn.
-  - reflexivity.
+  - apply refresh_cnames.
   - apply refresh_cnames.
   - apply refresh_cnames.
   - apply refresh_cnames.
